@@ -164,6 +164,18 @@ check('C15', 'other',
       'Trusted: CPython, zlib, lxml (time and memory are theirs), the fault generator; zlib bombs are outside the quantifier (corruptions of real files).',
       'Coq termination bounds for every model loop + generated zero-size-element scan + fault injection under time/RSS observation', 'DESIGN.md §6 C15')
 
+check('C18', 'other',
+      'Partial. Proved (Coq, closed): in a capability model of the unpickler, for EVERY opcode sequence whatever gets called is rooted at a global that '
+      'find_class handed out - so an allow-list find_class confines the calls to the list, while pickle.loads (everything importable) does not (witness: '
+      'GLOBAL os.system REDUCE = known finding C18-a); helper.get_definitions replaces every dot of the file-controlled version string before it builds '
+      'the path, so no path component can be ".." for ANY version string. Exhaustive: AST inventory of every call site that can reach '
+      'eval/exec/compile/__import__/import_module/os.system/subprocess/open/sys.path mutation, with an instance theorem that all are of an expected class. '
+      'Observed under sys.addaudithook: benign recordings and battles (imports, find_class, files opened), battles whose every pickled argument is a '
+      'hostile pickle naming a benign marker function (the marker IS called: C18-a), and crafted version strings with path components, absolute paths '
+      'and module-like names for all three games (nothing outside the bundle is touched).',
+      'Trusted: the capability abstraction of CPython\'s unpickler, the audit hook (lxml reads .def files in C, invisible to it), translator gen_sites.',
+      'Coq capability model of unpickling + path theorem + generated call-site inventory theorem + audit-hook observation', 'DESIGN.md §6 C18')
+
 NOT_YET = {}
 ALL = ['C%02d' % i for i in range(1, 20)]
 def main():
